@@ -456,6 +456,90 @@ def check_error(case):
     return None
 
 
+# ---------------------------------------- templates of a non-default encoding
+
+def encoding_cases():
+    def T(x):
+        return dict(k='text', s=x)
+
+    def name(n):
+        return dict(r='name', n=n)
+    ins = {
+        'var': dict(k='var', ref=name('vby'), opts=[]),
+        'var-hq': dict(k='var', ref=name('vby'), opts=[['html_quote', None]]),
+        'ent': dict(k='ent', n='vby', mods=[]),
+        'var-upper': dict(k='var', ref=name('vby'), opts=[['size', '99']]),
+    }
+    blocks = {
+        'top': lambda b: b,
+        'if': lambda b: [dict(k='if', conds=[name('ct')], bodies=[b],
+                              **{'else': None})],
+        'if-else': lambda b: [dict(k='if', conds=[name('cf')],
+                                   bodies=[[T('n')]], **{'else': b})],
+        'unless': lambda b: [dict(k='unless', ref=name('cf'), body=b)],
+        'in': lambda b: [dict(k='in', ref=name('s2'), opts=[], body=b,
+                              **{'else': None})],
+        'in-batch': lambda b: [dict(k='in', ref=name('s2'),
+                                    opts=[['size', '1']], body=b,
+                                    **{'else': None})],
+        'in-else': lambda b: [dict(k='in', ref=name('s0'), opts=[],
+                                   body=[T('n')], **{'else': b})],
+        'with': lambda b: [dict(k='with', ref=name('oa'), mapping=False,
+                                only=False, body=b)],
+        'let': lambda b: [dict(k='let', binds=[['la', name('va')]], body=b)],
+        'try': lambda b: [dict(k='try', body=b, handlers=[dict(
+            names=[], body=[T('handler')])],
+            **{'else': None, 'finally': None})],
+        'try-handler': lambda b: [dict(k='try', body=[dict(
+            k='var', ref=name('fr'), opts=[])], handlers=[dict(
+                names=[], body=b)], **{'else': None, 'finally': None})],
+        'try-finally': lambda b: [dict(k='try', body=[T('t')], handlers=[],
+                                       **{'else': None, 'finally': b})],
+        'in-with': lambda b: [dict(k='in', ref=name('s2'), opts=[], body=[
+            dict(k='with', ref=name('oa'), mapping=False, only=False,
+                 body=b)], **{'else': None})],
+    }
+    for enc in ('latin-1', 'cp1252', 'utf-16', 'utf-8', 'cp500'):
+        for bk in sorted(blocks):
+            for ik in sorted(ins):
+                for neigh in (0, 1):
+                    yield ['encoded', enc, bk, ik, neigh]
+    encoding_cases.parts = (ins, blocks)
+
+
+def check_encoded(case):
+    """A template created with an encoding, inserting a bytes value in
+    that encoding inside a block: the three spellings render alike."""
+    _, enc, bk, ik, neigh = case
+    if not hasattr(encoding_cases, 'parts'):
+        list(encoding_cases())
+    ins, blocks = encoding_cases.parts
+    body = [ins[ik]]
+    if neigh:
+        body = [dict(k='text', s='é<')] + body + [dict(k='text', s='>ß')]
+    ast = [dict(k='text', s='[')] + blocks[bk](body) + [dict(k='text',
+                                                              s=']')]
+    value = 'café <é>'.encode(enc)
+    ns_spec = dict(NSS[0], vby=dict(t='bytes', v=value.decode('latin-1')))
+    outs = {}
+    for sx in SYNTAXES:
+        src, toks = dtml.print_ast(ast, sx, dtml.Style([0]))
+        try:
+            t = harness.make_template(src, sx, encoding=enc)
+        except Exception as e:
+            outs[sx] = ['compile', type(e).__name__]
+            continue
+        out, world, _ = harness.run_impl(src, sx, ns_spec, template=t)
+        o = harness.norm_outcome(out)
+        outs[sx] = (o[:2] if o[0] == 'raise' else o, src)
+    for other in ('ssi', 'epfs'):
+        if outs['dtml'][0] != outs[other][0]:
+            return ('render:encoded:dtml-vs-%s' % other,
+                    'encoding=%s: %r vs %r' % (enc, outs['dtml'],
+                                               outs[other]))
+    return None
+
+
 def strategy():
     from hypothesis import strategies as st
     return st.fixed_dictionaries(dict(
@@ -473,6 +557,7 @@ def plan(tier, seed):
     shards.append(dict(kind='elseblocks'))
     shards.append(dict(kind='attrvalues'))
     shards.append(dict(kind='errors'))
+    shards.append(dict(kind='encoded'))
     return shards
 
 
@@ -489,6 +574,14 @@ def run_shard(shard):
                              distinct_by_construction=True)
                     for b, msg in check_entity(list(mods), name):
                         acc.fail(b, case, msg)
+        return acc.result()
+    if shard['kind'] == 'encoded':
+        for case in encoding_cases():
+            bad = check_encoded(case)
+            acc.case(case, True, klass='encoded:' + case[2],
+                     distinct_by_construction=True)
+            if bad:
+                acc.fail(bad[0], case, bad[1])
         return acc.result()
     if shard['kind'] == 'errors':
         for rule, src in error_sources():
@@ -530,6 +623,8 @@ def run_shard(shard):
 
 
 def replay(case):
+    if isinstance(case, list) and case and case[0] == 'encoded':
+        return check_encoded(case)
     if isinstance(case, list) and case and case[0] == 'error':
         f = check_error(case)
         return f if f and f != 'skip' else None
